@@ -17,9 +17,16 @@ run, carrying the inputs of `SysW.Op`. Per op the driver
   at the head of every w2s queue, with the real `rets` before a delivery and with `[]` after every action), `c06.single`,
   `c08.cancel_sent`.
 
-What the model has no action for is applied by the driver as an edit of the M2 state OUTSIDE `SysW.step` (reported in
-notes/sysw_link.md): `age_worker` (M2's `remaining` is a run constant), the `launchFails` attribute of backlog tasks (the
-harness can mark a task with `fail_next_launch` after it was delivered into a backlog).
+A case that cannot be replayed (an op does not parse, the head of a model queue is not the message the real run delivered)
+prints `out !bad-op <why>`: a disagreement for `bin/check`, never a default.
+
+What the model has no action / no input for is applied by the driver as an EDIT of the state OUTSIDE `SysW.step` (each is
+reported in notes/sysw_link.md §4 as a gap of the composed model; counted per case in the `info edits …` line at `end`):
+`age_worker` and the running worker clock (M2's `remaining` is a run constant), the `launchFails` attribute of backlog tasks
+(the harness can mark a task with `fail_next_launch` after it was delivered into a backlog), the ORDER of the ids in a
+`RetractResponse` (M2 lists them newest-first per class, the real worker oldest-first / hash order across classes), the ORDER
+of the single-task `ComputeTasks` messages `on_remove_worker` sends for redirected retracting tasks (hash order of the real
+task map, list order in M1).
 -/
 open HqModel HqModel.Proto
 
@@ -195,6 +202,8 @@ structure Acc where
   stop : Option (String × Bool × String) := none
   /-- the op could not be interpreted (parse error, queue head is not what the real run delivered) -/
   bad : Option String := none
+  /-- edits of the state outside `SysW.step` that changed something (kinds; counted per case, see `finish`) -/
+  edits : List String := []
 
 def Acc.halted (a : Acc) : Bool := a.stop.isSome || a.bad.isSome
 
@@ -364,6 +373,14 @@ def reorderNew (s0 s1 : SysW.State) (ord : List (Nat × List TaskId)) : SysW.Sta
 
 /-! ### the ops -/
 
+def Acc.withFails (a : Acc) (w : Nat) (fl : List Nat) : Acc :=
+  let s' := SysWDriver.patchFails a.s w fl
+  -- `patchFails` returns the state itself when no backlog entry changes
+  let changed := match findW a.s.workers w with
+    | some x => x.w.bkeys.any fun rq => (x.w.backlog rq).any fun t => t.launchFails != fl.contains t.id
+    | none => false
+  { a with s := s', edits := if changed then a.edits ++ ["launch-fails"] else a.edits }
+
 def respLinesSubmit (r : Job.SubmitResp) (nts : List Core.NewTask) : List String :=
   let txt := match r with
     | .ok j => s!"ok {j}"
@@ -488,7 +505,7 @@ def coreSubs (a : Acc) (rets : List (List TaskId)) (rem : Option Nat) : List (Li
             -- choice: the head is replaced by the same ids in the real order (an edit outside `SysW.step`).
             if sortTids ids' == sortTids ids then
               let a := if ids' == ids then a else
-                { a with s := { a.s with workers := a.s.workers.map fun x =>
+                { a with edits := a.edits ++ ["retract-response-order"], s := { a.s with workers := a.s.workers.map fun x =>
                     if x.id = w then { x with w2s := .retracted ids :: x.w2s.drop 1 } else x } }
               runOp' a (.deliverW2S w [])
             else { a with bad := some s!"the head of the w2s queue of worker {w} is RetractResponse [{showTids ids'}] in the model" }
@@ -501,6 +518,8 @@ structure D where
   dead : Bool := false
   /-- next fresh allocation handle -/
   nextH : Nat := 1
+  /-- edits outside `SysW.step` applied in this case -/
+  edits : List String := []
 
 def headS2W (s : SysW.State) (w : Nat) : Option S2W := (findW s.workers w).bind (·.s2w.head?)
 
@@ -508,13 +527,20 @@ def taskEnds (a : Acc) (w : Nat) (fl : List Nat) : List (TaskId × Worker.TaskRe
   | [] => a
   | (t, res, en) :: rest =>
     if a.halted then a else
-    taskEnds (runOp' { a with s := patchFails a.s w fl } (.wlocal w (.taskEnd (enc t) res en))) w fl rest
+    taskEnds (runOp' (a.withFails w fl) (.wlocal w (.taskEnd (enc t) res en))) w fl rest
 
 /-- the tokens of one op → the result of running its actions + (server side?, prints state?) + handles used -/
 def interpret (d : D) (toks : List String) : Acc × Bool × Bool × Nat :=
   let a : Acc := { s := d.s }
   let bad (why : String) : Acc × Bool × Bool × Nat := ({ a with bad := some why }, false, false, 0)
   let flOf (toks : List String) : Option (List Nat) := (kv "fl" toks >>= parseTids).map (·.map enc)
+  let remOf (tok : String) : Option (Option Nat) := CoreDriver.dropPrefix "rem=" tok >>= parseOptNat
+  -- the worker's clock runs (`remaining_time()` reads the wall clock): `remaining` of a time-limited worker is refreshed
+  -- with the value the real action found (differs from the last value by the wall time of the run, a few ms)
+  let setRem (a : Acc) (w : Nat) (rem : Option Nat) : Acc :=
+    match rem with
+    | some r => { a with s := modifyW a.s w fun ws => if ws.remaining.isSome then { ws with remaining := some r } else ws }
+    | none => a
   match toks with
   | "nop" :: _ => (a, false, false, 0)
   | "client" :: rest =>
@@ -533,7 +559,9 @@ def interpret (d : D) (toks : List String) : Acc × Bool × Bool × Nat :=
     match CoreDriver.dropPrefix "rets=" rets >>= CoreDriver.parseRets, CoreDriver.dropPrefix "ord=" ord >>= parseOrd with
     | some rets, some ord =>
       let a' := coreSubs a rets none (CoreDriver.splitOps subs)
-      (if a'.halted then a' else { a' with s := reorderNew a.s a'.s ord }, true, true, 0)
+      let s2 := reorderNew a.s a'.s ord
+      let changed := s2.workers.any fun x => (findW a'.s.workers x.id).any fun y => y.s2w.map showS2W != x.s2w.map showS2W
+      (if a'.halted then a' else { a' with s := s2, edits := if changed then a'.edits ++ ["lost-redirect-order"] else a'.edits }, true, true, 0)
     | _, _ => bad "rets / ord"
   | "deliver_w2s" :: _ :: rets :: subs =>
     if subs == ["other"] then (a, true, true, 0) else
@@ -542,11 +570,12 @@ def interpret (d : D) (toks : List String) : Acc × Bool × Bool × Nat :=
     | none => bad "rets"
   | ["age_worker", w, _, rem] =>
     match w.toNat?, CoreDriver.dropPrefix "rem=" rem >>= parseOptNat with
-    | some w, some rem => ({ a with s := modifyW a.s w fun ws => { ws with remaining := rem } }, false, false, 0)
+    | some w, some rem => ({ a with s := modifyW a.s w fun ws => { ws with remaining := rem }, edits := ["age-worker"] }, false, false, 0)
     | _, _ => bad "age_worker"
-  | "deliver_s2w" :: w :: "compute" :: fl :: items =>
-    match w.toNat?, flOf [fl], items.mapM parseItem with
-    | some w, some fl, some real =>
+  | "deliver_s2w" :: w :: "compute" :: fl :: rem :: items =>
+    match w.toNat?, flOf [fl], items.mapM parseItem, remOf rem with
+    | some w, some fl, some real, some rem =>
+      let a := setRem a w rem
       match headS2W a.s w with
       | some (.compute mitems) =>
         -- one `Extra` per item of the MODEL's message, taken from the real item of the same task
@@ -559,21 +588,22 @@ def interpret (d : D) (toks : List String) : Acc × Bool × Bool × Nat :=
         match extras with
         | some extras =>
           if real.length != mitems.length then bad "the ComputeTasks at the head of the model's queue has another number of items" else
-          (runOp' { a with s := patchFails a.s w fl } (.deliverS2W w extras), false, true, mitems.length)
+          (runOp' (a.withFails w fl) (.deliverS2W w extras), false, true, mitems.length)
         | none => bad s!"the ComputeTasks at the head of the model's queue differs: {showS2W (.compute mitems)}"
       | some m => bad s!"the head of the model's s2w queue is {showS2W m}"
       | none => bad "the model's s2w queue is empty"
-    | _, _, _ => bad "compute"
-  | ["deliver_s2w", w, "cancel", ids, fl, ends] =>
-    match w.toNat?, parseTids ids, flOf [fl], CoreDriver.dropPrefix "ends=" ends >>= parseEnds with
-    | some w, some ids, some fl, some ends =>
+    | _, _, _, _ => bad "compute"
+  | ["deliver_s2w", w, "cancel", ids, fl, rem, ends] =>
+    match w.toNat?, parseTids ids, flOf [fl], CoreDriver.dropPrefix "ends=" ends >>= parseEnds, remOf rem with
+    | some w, some ids, some fl, some ends, some rem =>
+      let a := setRem a w rem
       match headS2W a.s w with
       | some (.cancel ids') =>
         if sortTids ids' != sortTids ids then bad s!"the head of the model's s2w queue is {showS2W (.cancel ids')}" else
         (taskEnds (runOp' a (.deliverS2W w [])) w fl ends, false, true, 0)
       | some m => bad s!"the head of the model's s2w queue is {showS2W m}"
       | none => bad "the model's s2w queue is empty"
-    | _, _, _, _ => bad "cancel"
+    | _, _, _, _, _ => bad "cancel"
   | ["deliver_s2w", w, "retract", ids] =>
     match w.toNat?, parseTids ids with
     | some w, some ids =>
@@ -589,10 +619,10 @@ def interpret (d : D) (toks : List String) : Acc × Bool × Bool × Nat :=
     | some w, some id, some mts => (runOp' a (.wlocal w (.newRq id mts)), false, true, 0)
     | _, _, _ => bad "newrq"
   | ["deliver_s2w", _, "other"] => (a, false, true, 0)
-  | ["end_task", w, t, res, fl, en] =>
-    match w.toNat?, CoreDriver.parseTid t, parseRes res, flOf [fl], CoreDriver.dropPrefix "en=" en >>= parseEn with
-    | some w, some t, some res, some fl, some en => (taskEnds a w fl [(t, res, en)], false, true, 0)
-    | _, _, _, _, _ => bad "end_task"
+  | ["end_task", w, t, res, fl, rem, en] =>
+    match w.toNat?, CoreDriver.parseTid t, parseRes res, flOf [fl], CoreDriver.dropPrefix "en=" en >>= parseEn, remOf rem with
+    | some w, some t, some res, some fl, some en, some rem => (taskEnds (setRem a w rem) w fl [(t, res, en)], false, true, 0)
+    | _, _, _, _, _, _ => bad "end_task"
   | _ => bad "unknown op"
 
 def stepD (d : D) (toks0 : List String) : D × List String :=
@@ -616,13 +646,18 @@ def stepD (d : D) (toks0 : List String) : D × List String :=
       else []
     let state := if printState then (if serverSide then [] else woutLines a.wouts) ++ allWorkerLines s ++ finProtoAll s ++ c06Fails s else []
     let mon := if realPanic then [monLine "sysw.step" "real-panic-not-predicted" "the real action panicked, the composed model performs it"] else []
-    ({ s := s, dead := realPanic, nextH := d.nextH + used }, server ++ state ++ a.mons ++ mon)
+    ({ s := s, dead := realPanic, nextH := d.nextH + used, edits := d.edits ++ a.edits }, server ++ state ++ a.mons ++ mon)
 
 def reset (toks : List String) : D :=
   let get (key : String) (dflt : Nat) : Nat := ((kv key toks).bind String.toNat?).getD dflt
   { s := SysW.initState (get "reserve" 1) (get "max" 1) }
 
-def driver : Driver D := { reset := reset, step := stepD }
+/-- an informational line per case (ignored by `bin/check`): how many state edits outside `SysW.step` the replay needed -/
+def finish (d : D) : List String :=
+  let kinds := ["age-worker", "launch-fails", "retract-response-order", "lost-redirect-order"]
+  ["info edits " ++ " ".intercalate (kinds.map fun k => s!"{k}={(d.edits.filter (· == k)).length}")]
+
+def driver : Driver D := { reset := reset, step := stepD, finish := finish }
 
 end SysWDriver
 
